@@ -36,15 +36,15 @@ pub struct SerialMap<T> { _p: core::marker::PhantomData<T> }
 //@item core/src/message/clear_bus_listener_filters.rs struct ClearBusListenerFilters
 
 // protocol minor version that introduced each message kind sent by these handlers (0 = base protocol 1.14)
-impl IntoMessage for DestroyBusListenerReply { open spec fn min_minor() -> u32 { 0 } }
-impl IntoMessage for CreateBusListenerReply { open spec fn min_minor() -> u32 { 0 } }
+impl IntoMessage for DestroyBusListenerReply { open spec fn min_minor() -> u32 { 0 } open spec fn allowed_for(&self, receiver: &ConnectionState) -> bool { true } }
+impl IntoMessage for CreateBusListenerReply { open spec fn min_minor() -> u32 { 0 } open spec fn allowed_for(&self, receiver: &ConnectionState) -> bool { true } }
 
 // random UUIDv4 cookie: freshness w.r.t. live listeners is ASSUMED at the creation site (see create_bus_listener)
 impl BusListenerCookie {
     #[verifier::external_body]
     pub fn new_v4() -> (r: Self) { unimplemented!() }
 }
-impl IntoMessage for StopBusListenerReply { open spec fn min_minor() -> u32 { 0 } }
+impl IntoMessage for StopBusListenerReply { open spec fn min_minor() -> u32 { 0 } open spec fn allowed_for(&self, receiver: &ConnectionState) -> bool { true } }
 
 // ---- BusListener: real struct, methods ASSUMED with the contracts verified in unit broker_bus_listener -----------
 //@item core/src/bus_listener.rs enum BusListenerScope attr=derive(Clone,Copy)
@@ -84,7 +84,7 @@ impl ConnectionState {
     // Precondition: the message kind exists in the connection's negotiated protocol version (see handler_prelude.rs).
     #[verifier::external_body]
     pub(crate) fn send(&self, msg: VersionedMessage) -> (r: Result<(), ()>)
-        requires self.version.allows(msg.min_minor())
+        requires self.version.allows(msg.min_minor()), msg.allowed_for(self)
     { unimplemented!() }
 }
 
